@@ -16,7 +16,7 @@ class TLCError(Exception):
 
 
 def workdir(name):
-    d = os.path.join(VERIF, '.work', name)
+    d = os.path.join(VERIF, '.work', os.environ.get('VERIF_WORK', ''), name)
     shutil.rmtree(d, ignore_errors=True)
     os.makedirs(d)
     for f in os.listdir(SPEC):
